@@ -8,7 +8,14 @@
    writes only survivors marked written (the two hypotheses reads_only /
    writes_only are the trusted meaning of the scan; the write side is checked
    at run time by deep-hash snapshots).  Interpreter-level nondeterminism is
-   explored by the harness (hash seeds, A-B-A histories), not proved. *)
+   explored by the harness (hash seeds, A-B-A histories), not proved.
+
+   ENVIRONMENT: the entropy assignment of a run carries, besides set orders,
+   ids and the clock, everything the process environment supplies - what a
+   lookup relative to the current working directory finds (E_fs_cwd), the
+   environment variables / user / time zone (E_env_read), the locale
+   (E_locale).  e1 e2 below are arbitrary, so the theorems are statements about
+   runs that differ in the working directory, the environment and the locale. *)
 From Coq Require Import String List Bool.
 From PV Require Import Model.History Proofs.History Generated.Survivors Proofs.Survivors.
 Import ListNotations.
@@ -30,6 +37,24 @@ Theorem C11_history_independence :
       Forall (crash_ok t) h1 -> Forall (crash_ok t) h2 ->
       out run st0 (h1 ++ [Run i e1]) = out run st0 (h2 ++ [Run i e2]).
 Proof. exact history_independence. Qed.
+
+(* the same history of requests replayed in a different environment (every
+   run of it, and the final one, under a moved working directory / changed
+   variables / another locale: `move` re-tags the entropy of every earlier run)
+   gives the same bytes *)
+Theorem C11_environment_independence :
+  forall (Val EVal Input Output : Type)
+         (run : state Val -> entropy EVal -> Input -> Output * state Val)
+         (t : list surv) (et : list esite),
+    writes_only run t ->
+    reads_only run t et ->
+    survivor_obligation t = true ->
+    entropy_obligation et = true ->
+    forall (st0 : state Val) (h : list (@event Val EVal Input)) (i : Input)
+           (e1 e2 : entropy EVal) (move : entropy EVal -> entropy EVal),
+      Forall (crash_ok t) h ->
+      out run st0 (h ++ [Run i e1]) = out run st0 (map (retag Val EVal Input move) h ++ [Run i e2]).
+Proof. exact environment_independence. Qed.
 
 (* the survivors table generated from the current tree meets the obligation *)
 Theorem C11_generated_obligation : survivor_obligation survivors = true.
@@ -68,6 +93,20 @@ Theorem C11_entropy_obligation_necessary :
       out run st0 (([] : list (@event nat nat nat)) ++ [Run i ea]) <> out run st0 ([] ++ [Run i eb]).
 Proof. exact entropy_obligation_necessary. Qed.
 
+(* and for the environment: a system with NO written-and-read survivor, whose
+   only offending site is a data-file lookup relative to the working directory
+   (kind E_fs_cwd), gives different outputs for the same request after the same
+   history when a same-named file sits in the directory *)
+Theorem C11_environment_obligation_necessary :
+  exists (t : list surv) (et : list esite) (run : state nat -> entropy nat -> nat -> nat * state nat),
+    reads_only run t et /\ writes_only run t /\
+    survivor_obligation t = true /\ entropy_obligation et = false /\
+    Forall (fun e => e_kind e = E_fs_cwd) et /\
+    exists st0 (h : list (@event nat nat nat)) i ea eb,
+      Forall (crash_ok t) h /\
+      out run st0 (h ++ [Run i ea]) <> out run st0 (h ++ [Run i eb]).
+Proof. exact environment_obligation_necessary. Qed.
+
 (* non-vacuity: a two-survivor system (a table that is read, a counter that is
    written - also by a crashed run) meets every hypothesis, its state really
    changes, its output really depends on the state, and the outputs agree *)
@@ -81,7 +120,21 @@ Example C11_nonvacuous :
   out good_run (demo_state 20 0) ([] ++ [Run 3 e1]) = Some 23.
 Proof. exact nonvacuous. Qed.
 
+(* non-vacuity with environment sites present: a side file written into the
+   cwd and a locale-decoded ASCII data file are listed, do not flow, and the
+   whole history replayed "elsewhere" ends in the same output *)
+Example C11_nonvacuous_environment :
+  entropy_obligation env_good_sites = true /\
+  reads_only good_run good_table env_good_sites /\
+  (exists e, In e env_good_sites /\ e_kind e = E_fs_cwd) /\
+  out good_run (demo_state 10 0) (demo_history ++ [Run 3 e0]) = Some 13 /\
+  out good_run (demo_state 10 0) (map (retag nat nat nat (fun _ => cwd_decoy)) demo_history ++ [Run 3 cwd_decoy]) = Some 13.
+Proof. exact nonvacuous_environment. Qed.
+
 Print Assumptions C11_history_independence.
+Print Assumptions C11_environment_independence.
+Print Assumptions C11_environment_obligation_necessary.
+Print Assumptions C11_nonvacuous_environment.
 Print Assumptions C11_generated_obligation.
 Print Assumptions C11_no_unordered_iteration.
 Print Assumptions C11_generated_history_independence.
